@@ -173,6 +173,7 @@ func genC07(c *Ctx) {
 				forever := itemsStr(f.decode(&faultReader{data: data[:k], forever: true}, 0, limit))
 				small := itemsStr(f.decode(&faultReader{data: data[:k], forever: true, chunk: 3}, 0, limit))
 				together := itemsStr(f.decode(&faultReader{data: data[:k], withData: true}, 0, limit))
+				wrapped := itemsStr(f.decode(&faultReader{data: data[:k], err: errWrapsEOF}, 0, limit))
 				oracle := ""
 				chk := func(got, mode string) {
 					if oracle != "" {
@@ -210,6 +211,7 @@ func genC07(c *Ctx) {
 				chk(forever, "error forever")
 				chk(small, "error forever, 3-byte reads")
 				chk(together, "error returned together with the last bytes")
+				chk(wrapped, "a read error that wraps io.EOF (still a failure, not the end of the data)")
 				if oracle == "" && together != once {
 					oracle = "error delivered together with the last bytes gives a different result: " + trunc(together, 80) + " / " + trunc(once, 80)
 				}
